@@ -138,7 +138,9 @@ LEVEL_TEXT.update({
                   "log of write operations, sorted by application step, with exactly one entry per acknowledged writing call, each strictly inside its call's interval); "
                   "C05_write_order_respects_real_time; C05_completed_put_is_visible; C05_range_read_linearizable and C05_range_answer_is_sequential_get_range (a ranged read "
                   "returns what the sequential get_range gives on the blob the key held at one instant of the call, including the empty-range and invalid-range exits); "
-                  "C05_iteration_is_a_snapshot (an iteration returns the key list of one instant); C05_calls_linearizable (every call kind). K6 with get / get_reader / "
+                  "C05_iteration_is_a_snapshot (an iteration returns the key list of one instant); C05_calls_linearizable (every call kind); the bridge to the sequential "
+                  "development: C05_single_thread_is_the_ordered_map / C05_single_thread_refines_the_sequential_spec (one thread of the concurrent model, under every "
+                  "schedule, returns exactly the outputs of the ordered-map specification used by C01 and ends with its key map and exactly its blobs). K6 with get / get_reader / "
                   "get_range / get_size / iteration, readers parked between lookup and open, and model-free schedule exploration; oracle: each read result is the WHOLE "
                   "content (or the exact slice) of a value the key held during the call, each iteration the key list of one instant.",
              note=BASE_NOTE + "The model interleaves whole lock-protected sections of the real code (scheduling points = the verif::point hooks); relaxed-memory effects and "
